@@ -21,11 +21,11 @@ Definition sched_two : list choice :=
   [CIo ENone] ++
   [CIo (ERecv 2 false)] ++
   repeat (CIo ENone) 22 ++
-  repeat (CWk 0 ENone) 14 ++
+  repeat (CWk 0 ENone) 15 ++
   [CWk 0 (ESend 93 93)] ++
   repeat (CWk 0 ENone) 16 ++
   [CWk 0 (ESend 1 1)] ++
-  repeat (CWk 0 ENone) 36 ++
+  repeat (CWk 0 ENone) 37 ++
   [CWk 0 (ESend 93 93)] ++
   repeat (CWk 0 ENone) 16 ++
   [CWk 0 (ESend 1 1)] ++
@@ -53,7 +53,7 @@ Proof. vm_compute. repeat split; reflexivity. Qed.
 (* a state in the middle of the run: worker 0 owns the connection (it is inside the first task)
    while the second request is queued on the channel: the dispatcher holds no entry *)
 Example mid_owner :
-  let st := run P_two (firstn 60 sched_two) in
+  let st := run P_two (firstn 45 sched_two) in
   wk_owner (wpc (wk st 0)) = true /\ requests (sh st) = [0; 1] /\ queue (sh st) = 0.
 Proof. vm_compute. auto. Qed.
 
